@@ -50,6 +50,9 @@ BASE_QUERIES = [
 BASE_QUERIES += ['A[] forall (i : int[0,32767]) v0 < i + 1', 'A[] forall (i : int[-32768,5]) v0 > i - 1', 'A[] exists (i : int[-32768,32767]) v0 == i', 'A[] forall (i : int[1,32767]) v0 < i',
                  'A[] forall (i : int[0,32766]) v0 <= i', 'A[] forall (i : int[-32767,32767]) v0 != i', 'E<> sum (i : int[0,32767]) i > v0', 'A[] forall (i : int[0,3]) forall (j : int[-32768,3]) v0 < i + j + 40000',
                  'A[] forall (i : int) v0 != i || v0 == i']
+# the optional parts of the query forms left out one at a time (the builder fills them in with defaults, which the printer then has to write in a form the grammar reads)
+BASE_QUERIES += ['simulate [<=10; 5] { v0 } : b0', 'simulate [<=10] { v0, v1 } : v0 > 2', 'simulate [#<=10] { v0 }', 'simulate [x0<=10; 3] { v0 } : 1 : b0', 'E<> control: A[] b0', 'E[<=10](max: v0)', 'Pr[<=10](<> b0) >= Pr[#<=20]([] b1)', 'maxE(v0)[#<=10] : <> b0', 'maxPr[#<=10] {v1} -> {x0} : <> b0',
+                 'strategy S8 = minE(v0)[<=10] : <> b0', 'strategy S9 = loadStrategy ("f.json")']
 # string literals (file names of strategies): blanks, slashes, dots, backslashes written doubled and single, an escaped quote; the name of the saved strategy is
 # declared by an earlier query of the session, which the one-query-per-builder harness does not have: only that diagnostic is tolerated for saveStrategy
 STRING_QUERIES = ['strategy S3 = loadStrategy {v0} -> {x0} ("dir/sub dir/f.v1.json")', r'strategy S4 = loadStrategy {v0} -> {x0} ("C:\\out\\s.json")', r'strategy S5 = loadStrategy {v0} -> {x0} ("C:\out\s.json")',
